@@ -134,7 +134,32 @@ class R:
             return "%s[%s]" % (self.var(x[1]), self.e(x[2]))
         if k == "call":
             return "%s(%s)" % (x[1], ", ".join(self.e(a) for a in x[2]))
+        if k == "f":                # ("f", record variable, field): field read
+            return self.field(x[1], x[2])
         raise ValueError(k)
+
+    def field(self, v, f):
+        return "%s.%s" % (self.var(v), f)
+
+    def rec(self, v, e1, e2):
+        """("rec", v, e1, e2): a local record of type Rec {a, b} initialised with two values -> source lines"""
+        raise NotImplementedError
+
+    REC_DECL = ""
+
+    def uses_records(self, defs):
+        def walk(b):
+            for st in b:
+                if st[0] in ("rec", "setf"):
+                    return True
+                for part in st[1:]:
+                    if isinstance(part, list) and part and isinstance(part[0], tuple) and walk(part):
+                        return True
+            return False
+        return any(walk(body) for _, _, body in defs)
+
+    def preamble(self, defs):
+        return self.REC_DECL if self.uses_records(defs) else ""
 
     AND, OR, NOT = "&&", "||", "!"
 
@@ -163,6 +188,10 @@ class R:
                 out.append(pad + "%s = %s%s" % (self.var(st[1]), self.e(st[2]), self.semi))
             elif k == "setidx":
                 out.append(pad + "%s[%s] = %s%s" % (self.var(st[1]), self.e(st[2]), self.e(st[3]), self.semi))
+            elif k == "rec":
+                out += [pad + x for x in self.rec(st[1], self.e(st[2]), self.e(st[3]))]
+            elif k == "setf":       # ("setf", record variable, field, expression): field write
+                out.append(pad + "%s = %s%s" % (self.field(st[1], st[2]), self.e(st[3]), self.semi))
             elif k == "out":
                 out.append(pad + "out(%s)%s" % (self.e(st[1]), self.semi))
             elif k == "lets":       # ("lets", name, text): a string variable initialised with a literal
@@ -251,11 +280,16 @@ class RPy(R):
         return [pad + "%s = 0" % st[1], pad + "%s = %d" % (st[2], st[3]), pad + "while %s < %s:" % (st[1], st[2])] + self.block(st[4], ind + 1) + \
                [pad + "    %s = %s + 1" % (st[1], st[1]), pad + "    %s = %s - 1" % (st[2], st[2])]
 
+    REC_DECL = "class Rec:\n    def __init__(self, a, b):\n        self.a = a\n        self.b = b\n\n"
+
+    def rec(self, v, e1, e2):
+        return ["%s = Rec(%s, %s)" % (v, e1, e2)]
+
     def program(self, defs):
         parts = []
         for name, params, body in defs:
             parts.append("def %s(%s):\n%s\n" % (name, ", ".join(params), "\n".join(self.block(body, 1))))
-        return "\n".join(parts) + "\n" + "\n".join(self.main_calls()) + "\n"
+        return self.preamble(defs) + "\n".join(parts) + "\n" + "\n".join(self.main_calls()) + "\n"
 
 
 class RJs(R):
@@ -267,11 +301,16 @@ class RJs(R):
     def arr(self, v, es):
         return "let %s = [%s];" % (v, ", ".join(es))
 
+    REC_DECL = "class Rec {\n    constructor(a, b) {\n        this.a = a;\n        this.b = b;\n    }\n}\n\n"
+
+    def rec(self, v, e1, e2):
+        return ["let %s = new Rec(%s, %s);" % (v, e1, e2)]
+
     def program(self, defs):
         parts = []
         for name, params, body in defs:
             parts.append("function %s(%s) {\n%s\n}\n" % (name, ", ".join(params), "\n".join(self.block(body, 1))))
-        return "\n".join(parts) + "\n" + "\n".join(self.main_calls()) + "\n"
+        return self.preamble(defs) + "\n".join(parts) + "\n" + "\n".join(self.main_calls()) + "\n"
 
 
 class RTs(RJs):
@@ -284,7 +323,12 @@ class RTs(RJs):
         parts = []
         for name, params, body in defs:
             parts.append("function %s(%s): number {\n%s\n}\n" % (name, ", ".join(p + ": number" for p in params), "\n".join(self.block(body, 1))))
-        return "\n".join(parts) + "\n" + "\n".join(self.main_calls()) + "\n"
+        return self.preamble(defs) + "\n".join(parts) + "\n" + "\n".join(self.main_calls()) + "\n"
+
+    REC_DECL = ("class Rec {\n    a: number;\n    b: number;\n    constructor(a: number, b: number) {\n        this.a = a;\n        this.b = b;\n    }\n}\n\n")
+
+    def rec(self, v, e1, e2):
+        return ["let %s: Rec = new Rec(%s, %s);" % (v, e1, e2)]
 
 
 class RJava(R):
@@ -304,7 +348,12 @@ class RJava(R):
         for name, params, body in defs:
             parts.append("    static int %s(%s) {\n%s\n    }\n" % (name, ", ".join("int " + p for p in params), "\n".join(self.block(body, 2))))
         parts.append("    static void main0() {\n%s\n    }\n" % "\n".join("        " + x for x in self.main_calls()))
-        return "class K {\n" + "\n".join(parts) + "}\n"
+        return self.preamble(defs) + "class K {\n" + "\n".join(parts) + "}\n"
+
+    REC_DECL = "class Rec {\n    int a;\n    int b;\n    Rec(int a, int b) {\n        this.a = a;\n        this.b = b;\n    }\n}\n\n"
+
+    def rec(self, v, e1, e2):
+        return ["Rec %s = new Rec(%s, %s);" % (v, e1, e2)]
 
 
 class RC(R):
@@ -324,7 +373,12 @@ class RC(R):
         for name, params, body in defs:
             parts.append("int %s(%s) {\n%s\n}\n" % (name, ", ".join("int " + p for p in params), "\n".join(self.block(body, 1))))
         parts.append("void main0() {\n%s\n}\n" % "\n".join("    " + x for x in self.main_calls()))
-        return "\n".join(parts)
+        return self.preamble(defs) + "\n".join(parts)
+
+    REC_DECL = "struct Rec {\n    int a;\n    int b;\n};\n\n"
+
+    def rec(self, v, e1, e2):
+        return ["struct Rec %s;" % v, "%s.a = %s;" % (v, e1), "%s.b = %s;" % (v, e2)]
 
 
 class RGo(R):
@@ -360,8 +414,13 @@ class RGo(R):
         i, j = st[1], st[2]
         return [pad + "for %s, %s = 0, %d; %s < %s; %s, %s = %s+1, %s-1 {" % (i, j, st[3], i, j, i, j, i, j)] + self.block(st[4], ind + 1) + [pad + "}"]
 
+    REC_DECL = "type Rec struct {\n    a int\n    b int\n}\n"
+
+    def rec(self, v, e1, e2):
+        return ["var %s Rec" % v, "%s.a = %s" % (v, e1), "%s.b = %s" % (v, e2)]
+
     def program(self, defs):
-        parts = ["package main\n"]
+        parts = ["package main\n", self.preamble(defs)]
         for name, params, body in defs:
             parts.append("func %s(%s) int {\n%s\n}\n" % (name, ", ".join(p + " int" for p in params), "\n".join(self.block(body, 1))))
         parts.append("func main0() {\n%s\n}\n" % "\n".join("    " + x for x in self.main_calls()))
@@ -380,8 +439,16 @@ class RPhp(R):
     def arr(self, v, es):
         return "$%s = [%s];" % (v, ", ".join(es))
 
+    REC_DECL = "class Rec {\n    public $a;\n    public $b;\n    function __construct($a, $b) {\n        $this->a = $a;\n        $this->b = $b;\n    }\n}\n"
+
+    def field(self, v, f):
+        return "$%s->%s" % (v, f)
+
+    def rec(self, v, e1, e2):
+        return ["$%s = new Rec(%s, %s);" % (v, e1, e2)]
+
     def program(self, defs):
-        parts = ["<?php"]
+        parts = ["<?php", self.preamble(defs)]
         for name, params, body in defs:
             parts.append("function %s(%s) {\n%s\n}\n" % (name, ", ".join("$" + p for p in params), "\n".join(self.block(body, 1))))
         return "\n".join(parts) + "\n" + "\n".join(self.main_calls()) + "\n"
@@ -421,6 +488,26 @@ CORE_CONSTRUCTS = {
         ("let", "t4", ("bin", "*", ("bin", "*", ("n", 2), ("n", 3)), ("n", 4))),
         ("out", ("v", "t0")), ("out", ("v", "t1")), ("out", ("v", "t2")), ("out", ("v", "t3")), ("out", ("v", "t4")),
         ("ret", ("bin", "+", ("bin", "-", ("bin", "+", ("n", 1), ("bin", "*", ("n", 2), ("n", 3))), ("n", 4)), ("bin", "*", ("v", "a"), ("n", 0))))])],
+    # records / objects with fields: construction with two values, field reads in expressions and conditions, field writes, two records
+    "record_fields": [("entry", ["a", "b"], [
+        ("rec", "r", ("v", "a"), ("bin", "+", ("v", "b"), ("n", 1))),
+        ("out", ("f", "r", "a")), ("out", ("f", "r", "b")),
+        ("setf", "r", "a", ("bin", "+", ("f", "r", "a"), ("n", 10))),
+        ("setf", "r", "b", ("bin", "*", ("f", "r", "a"), ("n", 2))),
+        ("out", ("f", "r", "a")),
+        ("ret", ("bin", "-", ("f", "r", "b"), ("f", "r", "a")))])],
+    "record_two_objects": [("entry", ["a", "b"], [
+        ("rec", "r", ("v", "a"), ("n", 1)), ("rec", "q", ("v", "b"), ("n", 2)),
+        ("setf", "r", "b", ("f", "q", "a")),
+        ("setf", "q", "a", ("bin", "+", ("f", "r", "a"), ("f", "q", "b"))),
+        ("if", ("cmp", "<", ("f", "r", "a"), ("f", "q", "a")), [("setf", "r", "a", ("n", 7))], [("setf", "q", "b", ("n", 9))]),
+        ("out", ("f", "r", "a")), ("out", ("f", "r", "b")), ("out", ("f", "q", "a")),
+        ("ret", ("bin", "+", ("f", "q", "b"), ("f", "r", "b")))])],
+    "record_in_loop": [("entry", ["a", "b"], [
+        ("rec", "r", ("n", 0), ("v", "b")), ("let", "i1", ("n", 0)),
+        ("for", "i1", 3, [("setf", "r", "a", ("bin", "+", ("f", "r", "a"), ("v", "i1"))),
+                          ("if", ("cmp", "==", ("f", "r", "a"), ("v", "a")), [("setf", "r", "b", ("bin", "+", ("f", "r", "b"), ("n", 5)))], [])]),
+        ("ret", ("bin", "+", ("bin", "*", ("f", "r", "a"), ("n", 10)), ("f", "r", "b")))])],
     "arith": [("entry", ["a", "b"], [("ret", ("bin", "-", ("bin", "*", ("v", "a"), ("n", 3)), ("bin", "+", ("v", "b"), ("neg", ("v", "a")))))])],
     "if_else": [("entry", ["a", "b"], [("let", "t0", ("n", 0)), ("if", ("cmp", "<", ("v", "a"), ("v", "b")), [("set", "t0", ("n", 1))], [("set", "t0", ("n", 2))]),
                                        ("if", ("and", ("cmp", ">", ("v", "a"), ("n", 0)), ("not", ("cmp", "==", ("v", "b"), ("n", 1)))), [("set", "t0", ("bin", "+", ("v", "t0"), ("n", 10)))], []),
